@@ -1713,12 +1713,524 @@ fn case_index_two_rounds(ctx: &mut Ctx, sch: &Sch, sub: u64) {
 
 // ------------------------------------------------------------------------------------------
 
+// ------------------------------------------------------------------------------------------
+// u32 VInt fast path (length prefixes inside TantivyDocument / CompactDoc)
+// ------------------------------------------------------------------------------------------
+
+fn vint_thresholds() -> Vec<u32> {
+    let mut vals: Vec<u32> = vec![0, 1, 2, u32::MAX, u32::MAX - 1];
+    for k in [7u32, 14, 21, 28] {
+        let t = 1u32 << k;
+        vals.extend([t - 2, t - 1, t, t + 1, t + 2]);
+    }
+    vals
+}
+
+fn case_vint32(ctx: &mut Ctx) {
+    let mut vals = vint_thresholds();
+    for _ in 0..60 {
+        vals.push((ctx.rng.next_u64() >> ctx.rng.below(64)) as u32);
+    }
+    for v in vals {
+        let case = json!({"kind": "vint32", "sub": v.to_string()});
+        ctx.report.case(&format!("vint32|{v}"), v >= 128);
+        let res = catch_unwind(AssertUnwindSafe(|| {
+            let mut buf = [0u8; 8];
+            let enc = tantivy_common::serialize_vint_u32(v, &mut buf).to_vec();
+            let mut padded = enc.clone();
+            padded.extend([0x05, 0x85]);
+            let (back, n) = tantivy_common::read_u32_vint_no_advance(&padded);
+            (enc, back, n)
+        }));
+        match res {
+            Ok((enc, back, n)) => {
+                if back != v || n != enc.len() {
+                    ctx.report.violation("oracle", "C09:vint-u32-roundtrip", format!("serialize_vint_u32({v}) = {} reads back as {back} ({n} bytes)", hex(&enc)), case.clone());
+                }
+                let m = ctx.model.ask(&format!("C09 vint32enc {v}"));
+                if m != hex(&enc) {
+                    ctx.report.violation("model", "C09:vint-u32-bytes", format!("serialize_vint_u32({v}) real {} model {m}", hex(&enc)), case.clone());
+                }
+                let md = ctx.model.ask(&format!("C09 vint32dec {}0585", hex(&enc)));
+                if md != format!("{back}:{n}") {
+                    ctx.report.violation("model", "C09:vint-u32-bytes", format!("read_u32_vint of {}: real {back}:{n} model {md}", hex(&enc)), case);
+                }
+            }
+            Err(_) => ctx.report.violation("oracle", "C09:vint-u32-roundtrip", format!("serialize_vint_u32 / read_u32_vint panicked for {v}"), case),
+        }
+    }
+}
+
+/// documents whose value lengths (or child-table sizes) sit exactly on the VInt thresholds,
+/// through the codec alone: add to a TantivyDocument, serialize, deserialize, read the values
+fn case_threshold(ctx: &mut Ctx, sch: &Sch, sub: u64) {
+    let len = (sub >> 8) as usize;
+    let shape = sub & 0xff;
+    let case = json!({"kind": "thr", "sub": sub.to_string()});
+    let raw = sch.fields[3].field; // stored-only text
+    let by = sch.fields[12].field; // stored bytes
+    let fc = sch.fields[10].field; // stored facet
+    let js = sch.fields[16].field; // stored-only json
+    let text = |n: usize| -> String { (0..n).map(|i| (b'a' + (i % 23) as u8) as char).collect() };
+    let fvs: Vec<(Field, OwnedValue)> = match shape {
+        0 => vec![(raw, OwnedValue::Str(text(len)))],
+        1 => vec![(by, OwnedValue::Bytes((0..len).map(|i| (i * 7 % 251) as u8).collect()))],
+        2 => vec![(fc, OwnedValue::Facet(Facet::from_path(vec![text(len)])))],
+        3 => vec![(js, OwnedValue::Object(vec![("k".into(), OwnedValue::Array(vec![OwnedValue::Str(text(len)), OwnedValue::U64(1)]))]))],
+        4 => vec![(js, OwnedValue::Object(vec![(text(len), OwnedValue::Bool(true))]))],
+        // child table of an array: one (type, address) pair of 2 bytes per null element
+        5 => vec![(js, OwnedValue::Object(vec![("t".into(), OwnedValue::Array(vec![OwnedValue::Null; len / 2]))]))],
+        // child table of an object whose keys are empty strings stored at small addresses is not
+        // of a predictable size; use bools as values of an array inside an array instead
+        _ => vec![(js, OwnedValue::Object(vec![("t".into(), OwnedValue::Array(vec![OwnedValue::Array(vec![OwnedValue::Bool(true); len / 2])]))]))],
+    };
+    let expected = canon_fields(&fvs);
+    ctx.report.case(&format!("thr|{len}|{shape}"), true);
+    ctx.report.count(&format!("threshold-length:{len}"));
+    let doc = to_tantivy_doc(&fvs);
+    let res = catch_unwind(AssertUnwindSafe(|| -> Result<(String, String, usize), String> {
+        // what the document itself returns before it is stored
+        let direct = canon_doc(&doc);
+        let bytes = tantivy::verif::c09_serialize_doc(&doc, &sch.schema).map_err(|e| e.to_string())?;
+        let back = tantivy::verif::c09_deserialize_doc(&bytes).map_err(|e| e.to_string())?;
+        Ok((direct, canon_doc(&back), bytes.len()))
+    }));
+    let what = |got: &str| format!("value of length {len} (shape {shape}): got {} expected {}", clip(got), clip(&expected));
+    match res {
+        Ok(Ok((direct, got, _))) => {
+            if direct != expected {
+                ctx.report.violation("oracle", "C09:document-value-differs", format!("TantivyDocument returns another value than was added: {}", what(&direct)), case);
+            } else if got != expected {
+                ctx.report.violation("oracle", "C09:codec-roundtrip", format!("stored and re-read: {}", what(&got)), case);
+            }
+        }
+        Ok(Err(e)) => ctx.report.violation("oracle", "C09:codec-roundtrip", format!("value of length {len} (shape {shape}): {e}"), case),
+        Err(_) => ctx.report.violation("oracle", "C09:codec-panic", format!("value of length {len} (shape {shape}): panic"), case),
+    }
+    // the model's `write_bytes_into` prefix for this length reads back the same length
+    let m = ctx.model.ask(&format!("C09 cdbytes {len}"));
+    let mut buf = [0u8; 8];
+    let prefix = tantivy_common::serialize_vint_u32(len as u32, &mut buf).to_vec();
+    if m != format!("{}:{len}", hex(&prefix)) {
+        ctx.report.violation("model", "C09:vint-u32-bytes", format!("length prefix of {len} bytes: real {} model {m}", hex(&prefix)), json!({"kind": "thr", "sub": sub.to_string()}));
+    }
+}
+
+fn threshold_subs(thorough: bool) -> Vec<u64> {
+    let mut out = vec![];
+    for k in [7u32, 14, 21] {
+        let t = 1usize << k;
+        for len in [t - 1, t, t + 1] {
+            for shape in 0..7u64 {
+                // 2 MiB: text, bytes, nested text and the child tables; the rest only in thorough
+                if k == 21 && !thorough && !(len == t && matches!(shape, 0 | 1 | 3 | 5)) && !(shape == 0) {
+                    continue;
+                }
+                // facet / key of 2 MiB: only in thorough
+                out.push(((len as u64) << 8) | shape);
+            }
+        }
+    }
+    out
+}
+
+/// the same lengths through a whole index: added, committed, fetched, merged, fetched again
+fn case_index_thresholds(ctx: &mut Ctx, sch: &Sch) {
+    let case = json!({"kind": "thridx", "sub": "0"});
+    let raw = sch.fields[3].field;
+    let by = sch.fields[12].field;
+    let title = sch.fields[0].field;
+    let mut rng = ctx.rng.fork();
+    let mut specs: Vec<Vec<(Field, OwnedValue)>> = vec![];
+    let text = |n: usize, salt: usize| -> String { (0..n).map(|i| (b'a' + ((i + salt) % 26) as u8) as char).collect() };
+    for (j, k) in [7usize, 14, 21].iter().enumerate() {
+        let t = 1usize << k;
+        for (i, len) in [t - 1, t, t + 1].into_iter().enumerate() {
+            specs.push(vec![(title, OwnedValue::Str(format!("len {len}"))), (raw, OwnedValue::Str(text(len, i + j)))]);
+        }
+        specs.push(vec![(by, OwnedValue::Bytes(vec![(*k) as u8; t])), (raw, OwnedValue::Str("after".into()))]);
+    }
+    let res = catch_unwind(AssertUnwindSafe(|| -> tantivy::Result<(Index, Expect)> {
+        let settings = IndexSettings { docstore_compression: if rng.chance(1, 2) { Compressor::None } else { Compressor::Lz4 }, ..Default::default() };
+        let index = Index::create(RamDirectory::create(), sch.schema.clone(), settings)?;
+        let mut w: IndexWriter = index.writer_with_num_threads(1, 60_000_000)?;
+        w.set_merge_policy(Box::new(NoMergePolicy));
+        let mut exp = Expect { canon: vec![], docs: vec![] };
+        for (n, fvs) in specs.iter().enumerate() {
+            let id = exp.canon.len();
+            let mut doc = to_tantivy_doc(fvs);
+            doc.add_u64(sch.id, id as u64);
+            doc.add_u64(sch.sk, 1);
+            w.add_document(doc)?;
+            exp.canon.push(canon_fields(fvs));
+            exp.docs.push(fvs.clone());
+            if n == 5 {
+                w.commit()?;
+            }
+        }
+        w.commit()?;
+        Ok((index, exp))
+    }));
+    ctx.report.case("thridx", true);
+    ctx.report.count("index-threshold-lengths");
+    let (index, exp) = match res {
+        Ok(Ok(x)) => x,
+        Ok(Err(e)) => {
+            ctx.report.violation("oracle", "C09:indexing-error", format!("indexing documents with threshold lengths failed: {e}"), case);
+            return;
+        }
+        Err(_) => {
+            ctx.report.violation("oracle", "C09:indexing-panic", "indexing documents with threshold lengths panicked".into(), case);
+            return;
+        }
+    };
+    let deleted = vec![false; exp.canon.len()];
+    if !check_searcher(ctx, &mut rng, &index, sch, &exp, &deleted, "threshold lengths, after commit", &case) {
+        return;
+    }
+    let merged = catch_unwind(AssertUnwindSafe(|| -> tantivy::Result<()> {
+        let mut w: IndexWriter = index.writer_with_num_threads(1, 60_000_000)?;
+        let ids = index.searchable_segment_ids()?;
+        w.merge(&ids).wait()?;
+        Ok(())
+    }));
+    match merged {
+        Ok(Ok(())) => {
+            check_searcher(ctx, &mut rng, &index, sch, &exp, &deleted, "threshold lengths, after merge", &case);
+        }
+        Ok(Err(e)) => ctx.report.violation("oracle", "C09:merge-error", format!("merge of threshold-length documents failed: {e}"), case),
+        Err(_) => ctx.report.violation("oracle", "C09:merge-panic", "merge of threshold-length documents panicked".into(), case),
+    }
+}
+
+// ------------------------------------------------------------------------------------------
+// filtered merges: `merge_filtered_segments` with a caller supplied alive bitset per segment
+// ------------------------------------------------------------------------------------------
+
+fn make_alive_bitset(alive: &[bool]) -> tantivy::fastfield::AliveBitSet {
+    let mut bitset = tantivy_common::BitSet::with_max_value(alive.len() as u32);
+    for (i, a) in alive.iter().enumerate() {
+        if *a {
+            bitset.insert(i as u32);
+        }
+    }
+    let mut buf = vec![];
+    tantivy::fastfield::write_alive_bitset(&bitset, &mut buf).unwrap();
+    tantivy::fastfield::AliveBitSet::open(tantivy::directory::OwnedBytes::new(buf))
+}
+
+fn case_filtered_merge(ctx: &mut Ctx, sch: &Sch, k: Consts, sub: u64) {
+    let mut rng = Rng::new(sub);
+    let case = json!({"kind": "filtered", "sub": sub.to_string()});
+    let comp = pick_compressor(&mut rng);
+    // mostly small blocks, so that segments have at least `min_stack_blocks` blocks
+    let bs = *rng.pick(&[0usize, 1, 16, 40, 120, 400, k.default_bs]);
+    let sorted = rng.chance(1, 8);
+    let settings = IndexSettings {
+        docstore_compression: comp,
+        docstore_blocksize: bs,
+        docstore_compress_dedicated_thread: rng.chance(1, 2),
+        sort_by_field: if sorted { Some(tantivy::IndexSortByField { field: "sk".to_string(), order: tantivy::Order::Asc }) } else { None },
+        ..Default::default()
+    };
+    let nseg = 1 + rng.usize_below(3);
+    let regular_deletes = rng.below(3); // 0: none, 1: in some segments, 2: in all
+    type Built = (Index, Index, Expect, Vec<bool>, Vec<String>, usize);
+    let res = catch_unwind(AssertUnwindSafe(|| -> tantivy::Result<Built> {
+        let index = Index::create(RamDirectory::create(), sch.schema.clone(), settings.clone())?;
+        let mut w: IndexWriter = index.writer_with_num_threads(1, 30_000_000)?;
+        w.set_merge_policy(Box::new(NoMergePolicy));
+        let mut exp = Expect { canon: vec![], docs: vec![] };
+        let mut seg_ids: Vec<Vec<usize>> = vec![];
+        for _ in 0..nseg {
+            let n = *rng.pick(&[1usize, 2, 6, 7, 12, 30, 70]);
+            let mut ids = vec![];
+            for _ in 0..n {
+                let prof = match rng.below(6) { 0 => DocProfile::Empty, 1 => DocProfile::ManyValues, 2 => DocProfile::Mixed, _ => DocProfile::Small };
+                let gd = gen_doc(&mut rng, sch, prof);
+                let id = exp.canon.len();
+                let mut doc = to_tantivy_doc(&gd.added);
+                doc.add_u64(sch.id, id as u64);
+                doc.add_u64(sch.sk, rng.below(50));
+                w.add_document(doc)?;
+                exp.canon.push(canon_fields(&gd.expected));
+                exp.docs.push(gd.expected);
+                ids.push(id);
+            }
+            w.commit()?;
+            seg_ids.push(ids);
+        }
+        let total = exp.canon.len();
+        let mut deleted = vec![false; total];
+        if regular_deletes > 0 {
+            for (si, ids) in seg_ids.iter().enumerate() {
+                if regular_deletes == 2 || si % 2 == 0 {
+                    for &id in ids {
+                        if rng.chance(1, 4) {
+                            w.delete_term(Term::from_field_u64(sch.id, id as u64));
+                            deleted[id] = true;
+                        }
+                    }
+                }
+            }
+            w.commit()?;
+        }
+        drop(w);
+        // the caller's filters, per segment in the order of `searchable_segments`
+        let searcher = index.reader()?.searcher();
+        let segments = index.searchable_segments()?;
+        let mut filters: Vec<Option<tantivy::fastfield::AliveBitSet>> = vec![];
+        let mut srcs: Vec<String> = vec![];
+        let mut stack_candidates = 0usize;
+        for seg in &segments {
+            let sr = searcher.segment_readers().iter().find(|r| r.segment_id() == seg.id()).expect("segment reader");
+            let ids = sr.fast_fields().u64("id")?;
+            let max_doc = sr.max_doc() as usize;
+            let mode = rng.below(6);
+            let keep: Vec<bool> = (0..max_doc)
+                .map(|d| match mode {
+                    0 => true,               // a filter that removes nothing
+                    1 => d % 3 != 1,
+                    2 => d != 0 && d + 1 != max_doc,
+                    3 => rng.chance(3, 4),
+                    _ => true,               // (mode 4, 5: no filter at all, see below)
+                })
+                .collect();
+            let no_filter = mode >= 4;
+            let mut bits = String::new();
+            for d in 0..max_doc {
+                let id = ids.first(d as u32).unwrap_or(u64::MAX) as usize;
+                let regular_alive = sr.alive_bitset().map(|b| b.is_alive(d as u32)).unwrap_or(true);
+                if !no_filter && !keep[d] && id < total {
+                    deleted[id] = true;
+                }
+                bits.push(if regular_alive && (no_filter || keep[d]) { '1' } else { '0' });
+            }
+            let store = seg.open_read(SegmentComponent::Store)?.read_bytes()?.as_slice().to_vec();
+            if let Ok(r) = open_real(&store, 1) {
+                if !sr.has_deletes() && !no_filter && keep.iter().any(|x| !*x) && tantivy::verif::c09_block_checkpoints(&r).len() >= k.min_stack_blocks {
+                    stack_candidates += 1;
+                }
+            }
+            srcs.push(format!("{}:{}", hex(&store), if bits.contains('0') { bits } else { "all".into() }));
+            // the filter handed to the merge is intersected with the segment's own deletes by
+            // `open_with_custom_alive_set`
+            filters.push(if no_filter { None } else { Some(make_alive_bitset(&keep)) });
+        }
+        if deleted.iter().all(|d| *d) {
+            // an empty result is legal but uninteresting here: keep one document
+            return Err(tantivy::TantivyError::InvalidArgument("all-deleted".into()));
+        }
+        let merged = tantivy::indexer::merge_filtered_segments(&segments, settings.clone(), filters, RamDirectory::create())?;
+        Ok((index, merged, exp, deleted, srcs, stack_candidates))
+    }));
+    let (_index, merged, exp, deleted, srcs, stack_candidates) = match res {
+        Ok(Ok(x)) => x,
+        Ok(Err(tantivy::TantivyError::InvalidArgument(m))) if m == "all-deleted" => {
+            ctx.report.count("filtered-merge:skipped-all-deleted");
+            return;
+        }
+        Ok(Err(e)) => {
+            ctx.report.violation("oracle", "C09:filtered-merge-error", format!("merge_filtered_segments failed: {e}"), case);
+            return;
+        }
+        Err(_) => {
+            ctx.report.violation("oracle", "C09:filtered-merge-panic", "merge_filtered_segments panicked".into(), case);
+            return;
+        }
+    };
+    ctx.report.case(&format!("filtered|{sub}"), true);
+    ctx.report.count(&format!("filtered-merge:compressor:{}", compressor_name(&comp)));
+    ctx.report.count(if stack_candidates > 0 { "filtered-merge:filter-only-deletes-on-stackable-segment" } else { "filtered-merge:other" });
+    if !check_searcher(ctx, &mut rng, &merged, sch, &exp, &deleted, "after merge_filtered_segments", &case) {
+        return;
+    }
+    // the model merges the same stores with the same (combined) alive sets
+    if matches!(comp, Compressor::None) && !sorted {
+        if let Some(after) = segment_stores(&merged) {
+            let size: usize = srcs.iter().map(|s| s.len() / 2).sum();
+            if after.len() == 1 && size <= 250_000 {
+                let live = deleted.iter().filter(|d| !**d).count();
+                let probe: Vec<u32> = (0..live as u32 + 1).collect();
+                let mm = ctx.model.ask(&format!("C09 merge {bs} {}", srcs.join(";")));
+                let on_model = if mm == "err" { "err".to_string() } else { ctx.model.ask(&format!("C09 get {mm} {}", nat_list(&probe))) };
+                let on_real = ctx.model.ask(&format!("C09 get {} {}", hex(&after[0].1), nat_list(&probe)));
+                if on_model != on_real {
+                    ctx.report.violation("model", "C09:merged-store-content", format!("filtered merge: the model's merge of the {} source stores holds other documents than the real merged store", srcs.len()), case.clone());
+                } else if mm != hex(&after[0].1) {
+                    layout_differs(ctx, "merged-store", "filtered merge".into());
+                }
+                ctx.report.count("filtered-merge:model-compared");
+            }
+        }
+    }
+}
+
+// ------------------------------------------------------------------------------------------
+// phases, child processes
+// ------------------------------------------------------------------------------------------
+
+/// every case of a run, grouped into phases; a pure function of (seed, tier)
+fn plan(seed: u64, thorough: bool) -> Vec<(&'static str, Vec<(&'static str, u64)>)> {
+    let b = |q: u64, t: u64| if thorough { t } else { q };
+    let subs = |name: &str, n: u64| -> Vec<u64> {
+        let mut r = Rng::new(seed ^ crate::report::fnv(name.as_bytes()));
+        (0..n).map(|_| r.next_u64()).collect()
+    };
+    let mut fixed: Vec<(&'static str, u64)> = vec![("vint", 0), ("vint32", 0), ("empty", 0)];
+    for depth in [1u64, 2, 64, 127, 128, 300] {
+        fixed.push(("deep", depth));
+    }
+    if thorough {
+        fixed.extend([("deep", 700), ("deep", 1500)]);
+    }
+    let thr: Vec<(&'static str, u64)> = threshold_subs(thorough).into_iter().map(|s| ("thr", s)).collect();
+    vec![
+        ("fixed", fixed),
+        ("thresholds", thr),
+        ("thridx", vec![("thridx", 0)]),
+        ("codec", subs("codec", b(700, 15000)).into_iter().map(|s| ("codec", s)).collect()),
+        ("store", subs("store", b(320, 6000)).into_iter().map(|s| ("store", s)).collect()),
+        ("stack", subs("stack", b(80, 1500)).into_iter().map(|s| ("stack", s)).collect()),
+        ("index", subs("index", b(70, 2500)).into_iter().map(|s| ("index", s)).collect()),
+        ("index2", subs("index2", b(12, 400)).into_iter().map(|s| ("index2", s)).collect()),
+        ("filtered", subs("filtered", b(45, 1500)).into_iter().map(|s| ("filtered", s)).collect()),
+        ("v1", subs("v1", b(6, 40)).into_iter().map(|s| ("v1", s)).collect()),
+    ]
+}
+
+fn run_case(ctx: &mut Ctx, sch: &Sch, k: Consts, kind: &str, sub: u64) {
+    match kind {
+        "vint" => case_vint(ctx),
+        "vint32" => case_vint32(ctx),
+        "empty" => probe_empty_store(ctx),
+        "deep" => case_deep(ctx, sch, sub as usize),
+        "thr" => case_threshold(ctx, sch, sub),
+        "thridx" => case_index_thresholds(ctx, sch),
+        "codec" => case_codec(ctx, sch, sub),
+        "store" => case_store(ctx, k, sub),
+        "stack" => case_stack(ctx, sub),
+        "index" => case_index(ctx, sch, k, sub),
+        "index2" => case_index_two_rounds(ctx, sch, sub),
+        "filtered" => case_filtered_merge(ctx, sch, k, sub),
+        "v1" => case_v1_store(ctx, sch, sub),
+        other => ctx.report.notes.push(format!("unknown case kind {other}")),
+    }
+}
+
+fn arg_value(name: &str) -> Option<String> {
+    let args: Vec<String> = std::env::args().collect();
+    args.iter().position(|a| a == name).and_then(|i| args.get(i + 1).cloned())
+}
+
+/// One phase (or one replayed case) in a child process: tantivy can abort the whole process
+/// (allocation of a garbage length, stack overflow), which `catch_unwind` cannot intercept.
+/// Returns the child's report, or the last case it had started when it died.
+fn run_child(ctx: &Ctx, phase: &str, exclude: &[usize], replay: Option<&J>, tag: &str) -> Result<J, (Option<J>, String)> {
+    let exe = std::env::current_exe().map_err(|e| (None, format!("current_exe: {e}")))?;
+    let dir = std::env::temp_dir();
+    let base = format!("tvh-c09-{}-{tag}", std::process::id());
+    let out = dir.join(format!("{base}.out.json"));
+    let mark = dir.join(format!("{base}.mark.json"));
+    let errf = dir.join(format!("{base}.stderr"));
+    let _ = std::fs::remove_file(&out);
+    let _ = std::fs::remove_file(&mark);
+    let model = arg_value("--model").unwrap_or_else(|| "/verif/lean/.lake/build/bin/tvmodel".to_string());
+    let mut cmd = std::process::Command::new(exe);
+    cmd.arg("C09").arg("--tier").arg(&ctx.tier).arg("--seed").arg(ctx.seed.to_string()).arg("--model").arg(model).arg("--out").arg(&out);
+    let replay_file = dir.join(format!("{base}.replay.json"));
+    if let Some(case) = replay {
+        std::fs::write(&replay_file, serde_json::to_string(&json!({"case": case})).unwrap()).map_err(|e| (None, e.to_string()))?;
+        cmd.arg("--replay").arg(&replay_file);
+    }
+    cmd.env("TVH_C09_CHILD", phase)
+        .env("TVH_C09_EXCLUDE", exclude.iter().map(|i| i.to_string()).collect::<Vec<_>>().join(","))
+        .env("TVH_C09_MARK", &mark)
+        .stdout(std::process::Stdio::null())
+        .stderr(std::fs::File::create(&errf).map(std::process::Stdio::from).unwrap_or(std::process::Stdio::null()));
+    let mut child = cmd.spawn().map_err(|e| (None, format!("cannot start the child process: {e}")))?;
+    let limit = std::time::Duration::from_secs(if ctx.thorough() { 4 * 3600 } else { 20 * 60 });
+    let t0 = std::time::Instant::now();
+    let status = loop {
+        match child.try_wait() {
+            Ok(Some(st)) => break Some(st),
+            Ok(None) => {
+                if t0.elapsed() > limit {
+                    let _ = child.kill();
+                    let _ = child.wait();
+                    break None;
+                }
+                std::thread::sleep(std::time::Duration::from_millis(20));
+            }
+            Err(_) => break None,
+        }
+    };
+    let read_json = |p: &std::path::Path| std::fs::read_to_string(p).ok().and_then(|t| serde_json::from_str::<J>(&t).ok());
+    let result = match status {
+        Some(st) if st.success() => read_json(&out).ok_or((read_json(&mark), "the child process wrote no report".to_string())),
+        Some(st) => {
+            let err = std::fs::read_to_string(&errf).unwrap_or_default();
+            let tail: String = err.lines().rev().take(3).collect::<Vec<_>>().into_iter().rev().collect::<Vec<_>>().join(" | ");
+            Err((read_json(&mark), format!("process ended with {st} ({})", clip(&tail))))
+        }
+        None => Err((read_json(&mark), "process did not finish within the time limit and was killed".to_string())),
+    };
+    for p in [&out, &mark, &errf, &replay_file] {
+        let _ = std::fs::remove_file(p);
+    }
+    result
+}
+
+fn merge_child_report(ctx: &mut Ctx, r: &J) {
+    ctx.report.evaluations += r["evaluations"].as_u64().unwrap_or(0);
+    ctx.report.distinct_nontrivial += r["distinct_nontrivial"].as_u64().unwrap_or(0);
+    ctx.model.requests += r["model_requests"].as_u64().unwrap_or(0);
+    if let Some(d) = r["distribution"].as_object() {
+        for (k, v) in d {
+            ctx.report.count_n(k, v.as_u64().unwrap_or(0));
+        }
+    }
+    for smp in r["samples"].as_array().cloned().unwrap_or_default() {
+        ctx.report.sample(smp);
+    }
+    for n in r["notes"].as_array().cloned().unwrap_or_default() {
+        if let Some(t) = n.as_str() {
+            if !ctx.report.notes.iter().any(|x| x == t) {
+                ctx.report.notes.push(t.to_string());
+            }
+        }
+    }
+    for v in r["violations"].as_array().cloned().unwrap_or_default() {
+        let key = v["key"].as_str().unwrap_or("").to_string();
+        if ctx.report.violations.iter().filter(|x| x.key == key).count() < 3 {
+            ctx.report.violations.push(crate::report::Violation {
+                kind: v["kind"].as_str().unwrap_or("oracle").to_string(),
+                key,
+                what: v["what"].as_str().unwrap_or("").to_string(),
+                case: v["case"].clone(),
+            });
+        }
+    }
+}
+
+fn abort_violation(ctx: &mut Ctx, mark: Option<J>, why: &str, fallback_case: J) {
+    let case = mark.as_ref().map(|m| m["case"].clone()).filter(|c| !c.is_null()).unwrap_or(fallback_case);
+    ctx.report.violation(
+        "oracle",
+        "C09:process-abort",
+        format!("the process died while running case {case}: {why} (an abort / stack overflow / kill cannot be caught in-process)"),
+        case,
+    );
+}
+
 pub fn run(ctx: &mut Ctx) {
-    ctx.report.rule = "cases = codec documents, raw stores (StoreWriter/StoreReader), stacked stores and whole indexes \
-        (segments × deletes × merge); non-trivial: a codec document with nesting or ≥3 stored values, a store with ≥2 blocks, \
-        an index with nested/multi-valued documents and (several segments or deletes)".into();
+    ctx.report.rule = "cases = VInt values, codec documents (incl. value lengths on every VInt threshold), raw stores \
+        (StoreWriter/StoreReader), stacked stores, whole indexes (segments × deletes × merge, sorted or not), filtered merges \
+        (merge_filtered_segments with custom alive bitsets), version-1 stores; non-trivial: a codec document with nesting or \
+        ≥3 stored values, a store with ≥2 blocks, an index with nested/multi-valued documents and (several segments or deletes)".into();
     ctx.report.correspondence_obligations = vec![
         "VInt bytes: real = model, both directions".into(),
+        "serialize_vint_u32 / read_u32_vint_no_advance (CompactDoc length prefixes) = model ladder, both directions".into(),
         "Lean codec decodes the real serializer's bytes to the stored view".into(),
         "Lean-encoded document bytes = real bytes, and the real deserializer reads them".into(),
         "store file (compressor none): model reads the real file, real reads the model's (byte identity recorded as layout note)".into(),
@@ -1727,59 +2239,74 @@ pub fn run(ctx: &mut Ctx) {
         "checkpoints decoded by the model = StoreReader::block_checkpoints".into(),
         "CacheStats hits/misses/entries = model LRU".into(),
         "merged store file (compressor none): same documents in the same order as model mergeStores of the source files".into(),
+        "filtered merge (compressor none): same documents as model mergeStores with the combined alive sets".into(),
         "skip index bytes of real files (any compressor) = model SkipIndexBuilder; model seek on them = containing checkpoint".into(),
         "model iterRaw on real files with deletes = live documents".into(),
         "version-1 doc store: model deserializeDocV 1 = what the real reader returns before a merge".into(),
     ];
-    let sch = build_schema();
-    let k = read_consts(ctx);
-    if let Some(case) = ctx.replay.clone() {
-        let sub: u64 = case["sub"].as_str().and_then(|s| s.parse().ok()).unwrap_or(0);
-        match case["kind"].as_str().unwrap_or("") {
-            "codec" => case_codec(ctx, &sch, sub),
-            "store" => case_store(ctx, k, sub),
-            "stack" => case_stack(ctx, sub),
-            "index" => case_index(ctx, &sch, k, sub),
-            "index2" => case_index_two_rounds(ctx, &sch, sub),
-            "vint" => case_vint(ctx),
-            "deep" => case_deep(ctx, &sch, sub as usize),
-            "v1" => case_v1_store(ctx, &sch, sub),
-            k => ctx.report.notes.push(format!("unknown replay kind {k}")),
+    // ---- child: one phase, or one replayed case, in this process -------------------------------
+    if let Ok(phase) = std::env::var("TVH_C09_CHILD") {
+        let sch = build_schema();
+        let k = read_consts(ctx);
+        let mark = std::env::var("TVH_C09_MARK").ok();
+        let write_mark = |case: &J, i: usize| {
+            if let Some(m) = &mark {
+                let _ = std::fs::write(m, serde_json::to_string(&json!({"phase": phase, "index": i, "case": case})).unwrap());
+            }
+        };
+        if let Some(case) = ctx.replay.clone() {
+            write_mark(&case, 0);
+            let sub: u64 = case["sub"].as_str().and_then(|s| s.parse().ok()).unwrap_or(0);
+            let kind = case["kind"].as_str().unwrap_or("").to_string();
+            run_case(ctx, &sch, k, &kind, sub);
+            return;
+        }
+        let exclude: Vec<usize> = std::env::var("TVH_C09_EXCLUDE").unwrap_or_default().split(',').filter_map(|t| t.parse().ok()).collect();
+        let thorough = ctx.thorough();
+        for (name, cases) in plan(ctx.seed, thorough) {
+            if name != phase {
+                continue;
+            }
+            for (i, (kind, sub)) in cases.into_iter().enumerate() {
+                if exclude.contains(&i) {
+                    continue;
+                }
+                write_mark(&json!({"kind": kind, "sub": sub.to_string()}), i);
+                run_case(ctx, &sch, k, kind, sub);
+            }
         }
         return;
     }
-    case_vint(ctx);
-    probe_empty_store(ctx);
-    for depth in [1usize, 2, 64, 127, 128, 300] {
-        case_deep(ctx, &sch, depth);
-    }
-    if ctx.thorough() {
-        for depth in [700usize, 1500] {
-            case_deep(ctx, &sch, depth);
+    // ---- parent: every phase in a child process -----------------------------------------------
+    if let Some(case) = ctx.replay.clone() {
+        match run_child(ctx, "replay", &[], Some(&case), "replay") {
+            Ok(r) => merge_child_report(ctx, &r),
+            Err((mark, why)) => abort_violation(ctx, mark, &why, case),
         }
+        return;
     }
-    for _ in 0..ctx.budget(1000, 15000) {
-        let sub = ctx.rng.next_u64();
-        case_codec(ctx, &sch, sub);
-    }
-    for _ in 0..ctx.budget(320, 6000) {
-        let sub = ctx.rng.next_u64();
-        case_store(ctx, k, sub);
-    }
-    for _ in 0..ctx.budget(80, 1500) {
-        let sub = ctx.rng.next_u64();
-        case_stack(ctx, sub);
-    }
-    for _ in 0..ctx.budget(110, 2500) {
-        let sub = ctx.rng.next_u64();
-        case_index(ctx, &sch, k, sub);
-    }
-    for _ in 0..ctx.budget(20, 400) {
-        let sub = ctx.rng.next_u64();
-        case_index_two_rounds(ctx, &sch, sub);
-    }
-    for _ in 0..ctx.budget(6, 40) {
-        let sub = ctx.rng.next_u64();
-        case_v1_store(ctx, &sch, sub);
+    let thorough = ctx.thorough();
+    for (name, cases) in plan(ctx.seed, thorough) {
+        let mut exclude: Vec<usize> = vec![];
+        loop {
+            match run_child(ctx, name, &exclude, None, name) {
+                Ok(r) => {
+                    merge_child_report(ctx, &r);
+                    break;
+                }
+                Err((mark, why)) => {
+                    let idx = mark.as_ref().and_then(|m| m["index"].as_u64()).map(|i| i as usize);
+                    abort_violation(ctx, mark, &why, json!({"kind": "phase", "sub": name}));
+                    match idx {
+                        // run the phase again without the case that killed the process
+                        Some(i) if exclude.len() < 3 && !exclude.contains(&i) && i < cases.len() => exclude.push(i),
+                        _ => {
+                            ctx.report.notes.push(format!("phase {name}: given up after {} process deaths", exclude.len() + 1));
+                            break;
+                        }
+                    }
+                }
+            }
+        }
     }
 }
